@@ -263,3 +263,124 @@ class Gen:
 
 def program(r, size=3):
     return Gen(r, size).program()
+
+
+# ------------------------------------------------------------------------------------------------
+# G-frag: programs inside the fragment of the C01 preservation THEOREM (coq/Pres/Frag.v).
+# An extra stream: tools/props/c01.py evaluates `frag` on every program of the tie and reports how many
+# are inside; this stream makes sure the fragment itself is exercised by the translation validation too.
+# stage 1: `start` with definitions of int/bool expressions, print calls, + - *, comparisons, <=>,
+#          and/or/not, unary minus, nested blocks;
+# stage 2: + mutable variables and assignments (= += -= *=), if/elif/else statements, if-expressions,
+#          loops with break/continue.
+
+class FragGen:
+    def __init__(self, r, stage=1):
+        self.r = r
+        self.stage = stage
+        self.n = 0
+
+    def fresh(self, p="x"):
+        self.n += 1
+        return "%s%d" % (p, self.n)
+
+    def int_expr(self, env, d):
+        r = self.r
+        if d <= 0 or r.random() < 0.3:
+            if env["ints"] and r.random() < 0.65:
+                return r.choice(env["ints"])
+            return str(r.randint(0, 12))
+        k = r.random()
+        if k < 0.6:
+            return "(%s %s %s)" % (self.int_expr(env, d - 1), r.choice(["+", "-", "*"]), self.int_expr(env, d - 1))
+        if k < 0.7:
+            return "(-%s)" % self.int_expr(env, d - 1)
+        if self.stage >= 2 and k < 0.9:
+            return "(if %s do %s else %s end)" % (self.bool_expr(env, d - 1), self.int_expr(env, d - 1), self.int_expr(env, d - 1))
+        return self.int_expr(env, d - 1)
+
+    def bool_expr(self, env, d):
+        r = self.r
+        if d <= 0 or r.random() < 0.2:
+            if env["bools"] and r.random() < 0.6:
+                return r.choice(env["bools"])
+            return r.choice(["true", "false"])
+        k = r.random()
+        if k < 0.5:
+            return "(%s %s %s)" % (self.int_expr(env, d - 1), r.choice(["<", "<=", ">", ">=", "==", "!="]), self.int_expr(env, d - 1))
+        if k < 0.75:
+            return "(%s %s %s)" % (self.bool_expr(env, d - 1), r.choice(["and", "or"]), self.bool_expr(env, d - 1))
+        if k < 0.85:
+            return "(not %s)" % self.bool_expr(env, d - 1)
+        return "(%s %s %s)" % (self.bool_expr(env, d - 1), r.choice(["==", "!="]), self.bool_expr(env, d - 1))
+
+    def block(self, env, depth, ind, n, in_loop=False):
+        r = self.r
+        env = {k: list(v) for k, v in env.items()}
+        pad = "  " * ind
+        out = []
+        for _ in range(n):
+            k = r.random()
+            if k < 0.25:
+                x = self.fresh()
+                mut = self.stage >= 2 and r.random() < 0.5
+                out.append("%s%s %s %s" % (pad, x, ":=" if mut else "::", self.int_expr(env, 2)))
+                env["ints"].append(x)
+                if mut:
+                    env["muts"].append(x)
+            elif k < 0.35:
+                b = self.fresh("b")
+                out.append("%s%s :: %s" % (pad, b, self.bool_expr(env, 2)))
+                env["bools"].append(b)
+            elif k < 0.55:
+                out.append("%sprint(%s)" % (pad, self.int_expr(env, 2) if r.random() < 0.7 else self.bool_expr(env, 2)))
+            elif k < 0.62:
+                e = self.int_expr(env, 1)
+                out.append("%s%s <=> %s" % (pad, e, e if r.random() < 0.9 else self.int_expr(env, 1)))
+            elif k < 0.70 and depth > 0:
+                out.append(pad + "do")
+                out += self.block(env, depth - 1, ind + 1, r.randint(1, 3), in_loop)
+                out.append(pad + "end")
+            elif self.stage >= 2 and k < 0.80 and env["muts"]:
+                out.append("%s%s %s %s" % (pad, r.choice(env["muts"]), r.choice(["=", "+=", "-=", "*="]), self.int_expr(env, 1)))
+            elif self.stage >= 2 and k < 0.90 and depth > 0:
+                out.append("%sif %s do" % (pad, self.bool_expr(env, 1)))
+                out += self.block(env, depth - 1, ind + 1, r.randint(1, 2), in_loop)
+                if r.random() < 0.4:
+                    out.append("%selif %s do" % (pad, self.bool_expr(env, 1)))
+                    out += self.block(env, depth - 1, ind + 1, r.randint(1, 2), in_loop)
+                if r.random() < 0.6:
+                    out.append(pad + "else")
+                    out += self.block(env, depth - 1, ind + 1, r.randint(1, 2), in_loop)
+                out.append(pad + "end")
+            elif self.stage >= 2 and k < 0.97 and depth > 0:
+                i = self.fresh("i")
+                out.append("%s%s := 0" % (pad, i))
+                out.append("%sloop %s < %d do" % (pad, i, r.randint(1, 4)))
+                out.append("%s  %s += 1" % (pad, i))
+                env2 = {k2: list(v) for k2, v in env.items()}
+                env2["ints"].append(i)
+                if r.random() < 0.4:
+                    out.append("%s  if %s do" % (pad, self.bool_expr(env2, 1)))
+                    out.append("%s    %s" % (pad, r.choice(["break", "continue"])))
+                    out.append("%s  end" % pad)
+                out += self.block(env2, depth - 1, ind + 1, r.randint(1, 3), True)
+                out.append(pad + "end")
+            elif self.stage >= 2 and in_loop and k < 0.99:
+                out.append("%sif %s do" % (pad, self.bool_expr(env, 1)))
+                out.append("%s  %s" % (pad, r.choice(["break", "continue"])))
+                out.append(pad + "end")
+            else:
+                out.append("%sprint(%s)" % (pad, self.int_expr(env, 1)))
+        return out
+
+    def program(self):
+        env = {"ints": [], "bools": [], "muts": []}
+        out = [HEADER.rstrip("\n"), "start :: fn do"]
+        out += self.block(env, 2, 1, self.r.randint(3, 8))
+        out.append("end")
+        return "\n".join(out) + "\n"
+
+
+def fragment_program(r, stage=1):
+    return FragGen(r, stage).program()
